@@ -167,6 +167,9 @@ func arrayExecInsert(ar *Array, values []r.Element) (r.Element, error) {
 		return nil, err
 	}
 	v := values[1].(*Number)
+	if err := refuseSelfContainment(ar, values[0]); err != nil {
+		return nil, err
+	}
 	ar.value = insertArrayValue(ar.value, int(v.value), values[0])
 
 	return ar, nil
@@ -176,12 +179,18 @@ func arrayExecPrepend(ar *Array, values []r.Element) (r.Element, error) {
 	if err := ValidateExactParams(values, "any"); err != nil {
 		return nil, err
 	}
+	if err := refuseSelfContainment(ar, values[0]); err != nil {
+		return nil, err
+	}
 	ar.value = insertArrayValue(ar.value, 0, values[0])
 	return ar, nil
 }
 
 func arrayExecAppend(ar *Array, values []r.Element) (r.Element, error) {
 	if err := ValidateExactParams(values, "any"); err != nil {
+		return nil, err
+	}
+	if err := refuseSelfContainment(ar, values[0]); err != nil {
 		return nil, err
 	}
 	ar.value = insertArrayValue(ar.value, len(ar.value), values[0])
@@ -229,6 +238,11 @@ func arrayExecMerge(ar *Array, values []r.Element) (r.Element, error) {
 	result = append(result, ar.value...)
 	for _, v := range values {
 		varr := v.(*Array).value
+		for _, item := range varr {
+			if err := refuseSelfContainment(ar, item); err != nil {
+				return nil, err
+			}
+		}
 		result = append(result, varr...)
 	}
 	// update new array
